@@ -375,10 +375,14 @@ fn interpolate(lit: &str, expressions: &[Core]) -> Option<String> {
 /// Python source of an expression within a string delimited by double quotes.
 fn python_in_string(core: &Core) -> Option<String> {
     let source = format!("{core}").trim_end().to_string();
-    if source.contains('\\') || (source.contains('"') && source.contains('\'')) {
+    if source.contains('\\') || source.contains('\n') || (source.contains('"') && source.contains('\'')) {
         None
     } else {
-        Some(source.replace('"', "'"))
+        // two brackets in a row are an escaped bracket
+        let source = source.replace('"', "'");
+        let before = if source.starts_with('{') { " " } else { "" };
+        let after = if source.ends_with('}') { " " } else { "" };
+        Some(format!("{before}{source}{after}"))
     }
 }
 
